@@ -209,16 +209,16 @@ theorem constructCore_iff (o : Opts) (x y : Construct) (hx : ConstructWF x) :
       · exact ⟨h3.1.1, h3.1.2, h3.2⟩
     · intro hm
       rcases h4 with h4 | h4
-      · simp [hm] at h4
+      · rw [hm] at h4; exact absurd h4 (by simp)
       · exact h4
   · rintro ⟨h1, h2, h3, h4⟩
     refine ⟨⟨⟨h1, h2⟩, ?_⟩, ?_⟩
     · cases hb : hasBoundsAPI x.cls with
       | false => exact Or.inl rfl
       | true => obtain ⟨a, b, c⟩ := h3 hb; exact Or.inr ⟨⟨a, b⟩, c⟩
-    · by_cases hm : x.cls = clsMeasure
-      · exact Or.inr (h4 hm)
-      · exact Or.inl (by simpa using hm)
+    · cases hm : hasTypeTag x.cls with
+      | false => exact Or.inl rfl
+      | true => exact Or.inr (h4 hm)
 
 /-! ### cell methods, coordinate references -/
 
@@ -411,7 +411,7 @@ theorem ConstructEq.symm {o : Opts} (hc : CloseSymm o.close) (x y : Construct) (
     obtain ⟨a, b, c⟩ := h3 (hcls ▸ hb)
     exact ⟨a.symm, OptRel.symm' (SubEq.symm hc) _ _ b, OptRel.symm' (SubEq.symm hc) _ _ c⟩
   · intro hm
-    exact (h4 (hcls.trans hm)).symm
+    exact (h4 (hcls ▸ hm)).symm
 
 theorem ConstructEq.trans {o : Opts} (hc : CloseExact o.close) (hic : o.ignoreCompression = true)
     (x y z : Construct) (hxy : x.cls = y.cls)
@@ -593,7 +593,7 @@ theorem convertTo_ok (cls : Nat) (y : Construct)
       geometry := if hasBoundsAPI cls then y.geometry else none
       bounds := if hasBoundsAPI cls then y.bounds else none
       interiorRing := if hasBoundsAPI cls then y.interiorRing else none
-      measure := if cls == clsMeasure then y.measure else none } := by
+      measure := none } := by
   unfold convertTo
   split
   · rename_i d hd
@@ -610,9 +610,9 @@ theorem constructEquals_class_only (o : Opts) (hc : CloseRefl o.close) (x : Cons
     (hdim : x.cls = clsDim → ∀ d, x.data = some d → d.arr.shape.length = 1) :
     constructEquals o x { x with cls := cls } = .ok o.ignoreType := by
   have h1 : (x.cls == cls) = false := by simpa using fun e => hcls e.symm
-  have hm : (x.cls == clsMeasure) = false := by
+  have hm : hasTypeTag x.cls = false := by
     simp only [hasBoundsAPI, clsDim, clsAux, clsDomAnc, Bool.or_eq_true, beq_iff_eq] at hb2
-    simp only [clsMeasure, beq_eq_false_iff_ne, ne_eq]
+    simp only [hasTypeTag, clsMeasure, clsTopology, clsConnectivity, Bool.or_eq_false_iff, beq_eq_false_iff_ne, ne_eq]
     omega
   simp only [constructEquals, h1, Bool.false_eq_true, ↓reduceIte]
   cases o.ignoreType with
